@@ -27,16 +27,15 @@ RULE = ('Hierarchy-first wiring specs (vv.hier: plain, "..", _path split, '
 ASSUMPTIONS = [
     'differing _default values from several declarers are not a conflict: any '
     'declared default is accepted',
-    'glob children with a per-child sub-topology are provisioned by a declaring '
-    'process (class glob.subtopology.initial_children is generated separately '
-    'and reported under finding F15a if it fails)',
+    'glob children with a per-child sub-topology may be named in the initial '
+    'state only (class of the repaired defect D16)',
 ]
 
 
 @st.composite
 def strategy_(draw, tier):
     spec = draw(hier.wirings(features=('dotdot', 'split', 'leaf', 'glob',
-                                       'alias')))
+                                       'alias', 'subtopo_initial')))
     tree = spec['tree']
     counter = [1000]
 
